@@ -182,6 +182,7 @@ class ObjRunner:
         self.module_state = {}
         self._yield_stack = []
         self._paths = None
+        self._default_values = {}
 
     def explore(self, thunk, limit=64):
         """Run thunk() once per path through the undetermined tests it meets; thunk must build its own fresh model state.
@@ -309,7 +310,15 @@ class ObjRunner:
                     j = i - (len(names) - len(defaults))
                     if j < 0:
                         raise AnalysisError(f"object model: missing argument {p!r} for {f.key}")
-                    env[p] = Interp(dict(self.module_env(f.module.rel))).ev(defaults[j])
+                    # a default value is computed once, when the function is defined, and shared by all calls (of one evaluation)
+                    ck = (f.key, p)
+                    if ck not in self._default_values:
+                        dit = Interp(dict(self.module_env(f.module.rel)), call_hook=self.hook, name_hook=self.names, attr_hook=self.attrs, strict=True)
+                        try:
+                            self._default_values[ck] = dit.ev(defaults[j])
+                        except AnalysisError:
+                            self._default_values[ck] = Interp(dict(self.module_env(f.module.rel))).ev(defaults[j])
+                    env[p] = self._default_values[ck]
             for a, d in zip(node.args.kwonlyargs, node.args.kw_defaults):
                 if a.arg in kw:
                     env[a.arg] = kw[a.arg]
